@@ -561,6 +561,11 @@ def _present_keys(explainable: Explainable, options: Options) -> Set[str]:
         # failure, so the object depends on whatever the selector depends on - under
         # the options in effect at that point, so that enclosing pre-set options
         # still filter the keys they supply.
+        members = getattr(request.explainable, "members", None)
+        if isinstance(members, list):
+            # A coalesce that could not be evaluated failed in EVERY member, so it
+            # depends on all of them (its own explain() only describes the last one)
+            return set().union(*(member.explain(request.options) for member in members))
         try:
             return outer.run(request)
         except InsufficientInformationError as e:
